@@ -1,6 +1,8 @@
 use crate::block_parser::{BlocksParser, parse_blocks_from_comments};
 use crate::blocks::Block;
-use crate::language_parsers::{Comment, CommentsParser, TreeSitterCommentsParser};
+use crate::language_parsers::{
+    Comment, CommentsParser, TreeSitterCommentsParser, xml_style_comments_parser,
+};
 use anyhow::Context;
 use itertools::Itertools;
 use tree_sitter::StreamingIterator;
@@ -31,16 +33,9 @@ impl<C: CommentsParser> MdParser<C> {
             tree_sitter::Query::new(&markdown_lang, "(html_block) @html_block").unwrap();
 
         let html_lang = tree_sitter_html::LANGUAGE.into();
-        let html_comments_parser = TreeSitterCommentsParser::new(
-            &html_lang,
-            Box::new(|node, source_code| {
-                if node.kind() == "comment" {
-                    Some(source_code[node.byte_range()].to_string())
-                } else {
-                    None
-                }
-            }),
-        );
+        // The comment delimiters are blanked out (as in HTML files) so that they can't be mistaken for
+        // a part of a tag (e.g. the ">" of "-->" closing an unfinished "<block" tag).
+        let html_comments_parser = xml_style_comments_parser(&html_lang, "comment");
         Self {
             md_comments_parser,
             md_tree_sitter_parser,
@@ -91,9 +86,9 @@ impl<C: CommentsParser> BlocksParser for MdParser<C> {
         // the source, so that a block may start in one comment style and end in the other.
         let md_comments: Vec<Comment> = self.md_comments_parser.parse(contents).collect();
         let html_comments = self.parse_html_comments(contents)?;
-        let comments = md_comments
-            .into_iter()
-            .merge_by(html_comments, |a, b| a.source_range.start <= b.source_range.start);
+        let comments = md_comments.into_iter().merge_by(html_comments, |a, b| {
+            a.source_range.start <= b.source_range.start
+        });
         parse_blocks_from_comments(comments)
     }
 }
